@@ -62,6 +62,7 @@ inline std::vector<PVal> paramMenu() {
     // a parameter that went through a REFUSED reshape before it is handed over (the refused call must have left it as it was)
     m.push_back({"i2r", [](Param& p) { p.set(std::vector<int>() = {4, 5}); try { p.set(std::vector<int>() = {4, 5}, {30}); } catch (const std::range_error&) { } }});
     m.push_back({"f2r", [](Param& p) { p.set(std::vector<float>() = {4.5f, 5.5f}); try { p.set(std::vector<float>() = {4.5f, 5.5f}, {3, 7}); } catch (const std::range_error&) { } try { p.set(std::vector<std::string>() = {"a"}, {5}); } catch (const std::range_error&) { } }});
+    m.push_back({"ineg", [](Param& p) { p.set(std::vector<int>() = {-3, 7}); }});            // a negative FIRST value
     m.push_back({"fsnan", [](Param& p) { p.set(bitsf(0x7fa00000u)); }});    // scalar overloads with a SIGNALLING NaN (an arithmetic conversion on the way would quiet it)
     m.push_back({"dsnan", [](Param& p) { p.set(std::vector<float>() = {bitsf(0x7fa00001u), bitsf(0xffa00000u)}); }});
     m.push_back({"s11", [](Param& p) { p.set(std::vector<std::string>() = {"solo"}, {1, 1}); }});
@@ -253,6 +254,7 @@ inline Op opColPoint(const std::string& dev, int vs, const Limits& L) {
         if (dev == "nocol" && n == 0) return false;
         if (dev == "ragged" && n < 2) return false;
         if (dev == "surplus" && (n < 2 || sh.pts.size() + 1 > L.maxPoints)) return false;
+        if (dev == "otherkind" && n == 0) return false;
         return true;
     };
     o.apply = [dev, vs](World& w, const WSnap& s, CallInfo& ci) {
@@ -263,12 +265,13 @@ inline Op opColPoint(const std::string& dev, int vs, const Limits& L) {
         else if (dev == "ok2") names = {fresh(0), fresh(1)};
         else if (dev == "dup") names = {have.pts.front()};
         else if (dev == "dup2") names = {fresh(0), have.pts.back()};
-        else if (dev == "nocol") names = {};
+        else if (dev == "nocol" || dev == "otherkind") names = {};
         if (dev == "ragged") names = {fresh(0), fresh(1)};
         size_t cnt = n; if (dev == "fewer") cnt = n - 1; if (dev == "more") cnt = n + 1; if (dev == "none") cnt = 0;
         std::vector<Frame> fr;
         for (size_t f = 0; f < cnt; ++f) { Shape sh; sh.pts = names; if (dev == "ragged" && f + 1 == cnt) sh.pts.pop_back();   // the last frame brings only the first of the two new points
             Frame x = buildFrame(sh, vs); for (size_t i = 0; i < sh.pts.size(); ++i) x.points_nonConst().point_nonConst(i).x(val(vs, i, 0) + 1000.0f * (float)(f + 1));
+            if (dev == "otherkind") { Analogs A; SubFrame sf; Channel ch("stray"); ch.data(1.5f); sf.channel(ch); A.subframe(sf); x.add(A); }   // the frames bring NO point, only an analog channel: nothing of the asked kind is supplied
             if (dev == "surplus" && f + 1 == cnt) { Point extra; extra.name(fresh(1)); extra.x(4242.5f); x.points_nonConst().point(extra); }   // the LAST frame carries one point more than the column asked for by frame 0 (accepted, the surplus is not part of the column)
             fr.push_back(x); }
         for (size_t f = 0; f < fr.size(); ++f) { Shape sh; sh.pts = names; if (dev == "ragged" && f + 1 == fr.size()) sh.pts.pop_back(); FrSnap in = intendedFrame(sh, vs); for (size_t i = 0; i < sh.pts.size(); ++i) in.pts[i].v[0] = fbits(val(vs, i, 0) + 1000.0f * (float)(f + 1)); ci.givenFrames.push_back(in); }
@@ -289,6 +292,7 @@ inline Op opColAnalog(const std::string& dev, int vs, const Limits& L) {
         if (dev == "sub_fewer" && s.o.h.subPerFrame == 0) return false;
         if (dev == "ragged" && (n < 2 || s.o.h.subPerFrame == 0)) return false;
         if (dev == "surplus" && (n < 2 || s.o.h.subPerFrame == 0 || sh.chans.size() + 1 > L.maxChans)) return false;
+        if (dev == "otherkind" && n == 0) return false;
         return true;
     };
     o.apply = [dev, vs](World& w, const WSnap& s, CallInfo& ci) {
@@ -298,7 +302,7 @@ inline Op opColAnalog(const std::string& dev, int vs, const Limits& L) {
         if (dev == "ok2" || dev == "ragged") names = {fresh(0), fresh(1)};
         else if (dev == "dup") names = {have.chans.front()};
         else if (dev == "dup2") names = {fresh(0), have.chans.back()};
-        else if (dev == "nocol") names = {};
+        else if (dev == "nocol" || dev == "otherkind") names = {};
         else names = {fresh(0)};
         size_t cnt = n; if (dev == "fewer") cnt = n - 1; if (dev == "more") cnt = n + 1; if (dev == "none") cnt = 0;
         size_t nsub = s.o.h.subPerFrame; { Shape cur = declaredShape(s.o); bool filled = false; for (auto& f : s.o.frames) if (!f.empty()) filled = true; if (filled && cur.nsub > 0) nsub = cur.nsub; }   // what the data set really holds
@@ -308,6 +312,7 @@ inline Op opColAnalog(const std::string& dev, int vs, const Limits& L) {
             Shape sh; sh.chans = names; sh.nsub = nsub; if (dev == "ragged" && f + 1 == cnt) sh.chans.pop_back();
             Frame x = buildFrame(sh, vs);
             for (size_t sf = 0; sf < nsub; ++sf) for (size_t k = 0; k < sh.chans.size(); ++k) x.analogs_nonConst().subframe_nonConst(sf).channel_nonConst(k).data(aval(vs, sf, k) - 1000.0f * (float)(f + 1));
+            if (dev == "otherkind") { Points P; Point pt("stray"); pt.x(2.5f); P.point(pt); x.add(P); }   // the right number of (empty) sub-frames and a point: no channel is supplied
             if (dev == "surplus" && f + 1 == cnt && nsub) { Channel extra; extra.name(fresh(1)); extra.data(-4242.5f); x.analogs_nonConst().subframe_nonConst(nsub - 1).channel(extra); }   // the last sub-frame of the LAST frame carries one channel more than the column
             fr.push_back(x);
         }
